@@ -12,8 +12,8 @@
 (*   cyc     : the spec's graph (advanced by the spec's own actions) is cyclic - the           *)
 (*             discriminator of the known findings on cyclic graphs                           *)
 (*   muts    : mutator kinds of the latest mutator block before the query                     *)
-(*   renewed : a new solver instance was observed since that block started (a stale answer    *)
-(*             then comes from state that outlives the solver)                                *)
+(*   renewed : a query preceded that block and a new solver instance was observed since (a    *)
+(*             stale answer then comes from state that outlives the solver)                   *)
 (*   pc      : nodes m on a backward path of this very query that were walked by an identical *)
 (*             earlier query while unconditioned and got a condition (None -> binding)        *)
 (*             afterwards, with no node/edge created since (the path-cond shape)              *)
@@ -131,7 +131,7 @@ Ok ==
   /\ LET f == Fails IN
        f = {} \/ PrintT(<<"BAD", ToJson([i |-> i, k |-> k, fails |-> f, pc |-> PathCond,
                                          muts |-> ep.muts, cyc |-> ~Acyclic(SpecGraph),
-                                         renewed |-> Cases[i].obs[k].ns > ep.nsq])>>)
+                                         renewed |-> ep.nsq > 0 /\ Cases[i].obs[k].ns > ep.nsq])>>)
   /\ LET pc == PathCond IN pc = {} \/ PrintT(<<"COV", ToJson([i |-> i, k |-> k, m |-> pc])>>)
   /\ Conforms \/ PrintT(<<"DIV", ToJson([i |-> i, k |-> k])>>)
 
